@@ -576,6 +576,10 @@ def main():
                 tests = [t for t in pr.get('playback', []) if t[0] == 'cover' and r['never_hit'] in t[1]]
             else:
                 tests = [t for t in pr.get('playback', []) if t[0] != 'cover']
+                # Kani sometimes prints a concrete test only for a satisfied cover of a harness whose assertion failed: those inputs are
+                # in the harness domain and serve as seeds of the native (neighbourhood / snapped) replay search
+                if not tests:
+                    tests = list(pr.get('playback', []))
             case = None
             reproduced = False
             detail = None
